@@ -20,6 +20,12 @@ type CliCmd struct {
 	Varargs     []bool
 	Optional    []bool
 	Conditional bool
+	// FlagOptions of the command: the proto fields it configures, those it gives a
+	// DefaultValue (sent although the user typed nothing), and the RpcCommandOptions keys
+	// this extractor does not know to be cosmetic
+	FlagFields   []string
+	FlagDefaults []string
+	OtherKeys    []string
 }
 
 type RpcDesc struct {
@@ -129,6 +135,11 @@ func (w *World) cliCmds() []CliCmd {
 			if !ok {
 				continue
 			}
+			switch k := identName(kv.Key); k {
+			case "RpcMethod", "Use", "Skip", "Short", "Long", "Example", "Alias", "SuggestFor", "Deprecated", "Version", "FlagOptions", "PositionalArgs":
+			default:
+				cmd.OtherKeys = append(cmd.OtherKeys, k)
+			}
 			switch identName(kv.Key) {
 			case "RpcMethod":
 				cmd.Rpc = w.strValue(kv.Value)
@@ -136,6 +147,44 @@ func (w *World) cliCmds() []CliCmd {
 				cmd.Use = w.strValue(kv.Value)
 			case "Skip":
 				cmd.Skip = boolValue(kv.Value)
+			case "Short", "Long", "Example", "Alias", "SuggestFor", "Deprecated", "Version":
+				// cosmetic
+			case "FlagOptions":
+				fl, ok := unparen(kv.Value).(*ast.CompositeLit)
+				if !ok {
+					cmd.OtherKeys = append(cmd.OtherKeys, "FlagOptions:<expr>")
+					continue
+				}
+				for _, fe := range fl.Elts {
+					fkv, ok := fe.(*ast.KeyValueExpr)
+					if !ok {
+						cmd.OtherKeys = append(cmd.OtherKeys, "FlagOptions:<elt>")
+						continue
+					}
+					name := w.strValue(fkv.Key)
+					cmd.FlagFields = append(cmd.FlagFields, name)
+					fv := fkv.Value
+					if u, ok := fv.(*ast.UnaryExpr); ok && u.Op == token.AND {
+						fv = u.X
+					}
+					fo, ok := fv.(*ast.CompositeLit)
+					if !ok {
+						cmd.FlagDefaults = append(cmd.FlagDefaults, name) // cannot see: assume the worst
+						continue
+					}
+					for _, oe := range fo.Elts {
+						okv, ok := oe.(*ast.KeyValueExpr)
+						if !ok {
+							cmd.FlagDefaults = append(cmd.FlagDefaults, name)
+							continue
+						}
+						if identName(okv.Key) == "DefaultValue" {
+							if bl, ok := okv.Value.(*ast.BasicLit); !ok || bl.Value != `""` {
+								cmd.FlagDefaults = append(cmd.FlagDefaults, name)
+							}
+						}
+					}
+				}
 			case "PositionalArgs":
 				args, ok := unparen(kv.Value).(*ast.CompositeLit)
 				if !ok {
